@@ -27,6 +27,8 @@ type FuncInfo struct {
 	CallOrd map[string]int        // callee key -> number of call sites in the body
 	GotoOrd map[*ast.BranchStmt]int // goto statements: ordinal (1-based, source order) among the gotos to the same label
 	NGotos  map[string]int
+	RetOrd  map[*ast.ReturnStmt]int // return statements: ordinal (1-based, source order), closures excluded
+	NRets   int
 }
 
 type Engine struct {
@@ -174,6 +176,11 @@ func (e *Engine) LoadSpec(dir string) error {
 				e.contractErrs[k] = fmt.Sprintf("%s: contract of %s anchors an assertion after call %s but the function has %d call(s) of %s", c.Pos, k, ak, fi.CallOrd[ak[:i]], ak[:i])
 			}
 		}
+		for rk := range c.Returns {
+			if rk < 1 || rk > fi.NRets {
+				e.contractErrs[k] = fmt.Sprintf("%s: contract of %s names return %d but the function has %d return statements", c.Pos, k, rk, fi.NRets)
+			}
+		}
 		for gk := range c.Gotos {
 			i := strings.LastIndex(gk, "#")
 			n := 0
@@ -231,6 +238,17 @@ func (e *Engine) indexAnchors(fi *FuncInfo) {
 	fi.CallOrd = map[string]int{}
 	fi.GotoOrd = map[*ast.BranchStmt]int{}
 	fi.NGotos = map[string]int{}
+	fi.RetOrd = map[*ast.ReturnStmt]int{}
+	ast.Inspect(fi.Decl.Body, func(nd ast.Node) bool {
+		if _, ok := nd.(*ast.FuncLit); ok {
+			return false
+		}
+		if rs, ok := nd.(*ast.ReturnStmt); ok {
+			fi.NRets++
+			fi.RetOrd[rs] = fi.NRets
+		}
+		return true
+	})
 	ast.Inspect(fi.Decl.Body, func(nd ast.Node) bool {
 		if bs, ok := nd.(*ast.BranchStmt); ok && bs.Tok == token.GOTO && bs.Label != nil {
 			fi.NGotos[bs.Label.Name]++
